@@ -153,7 +153,41 @@ impl File {
             r matches Ok(f) ==> f.content() == Seq::<u8>::empty(),
             r is Err ==> io_failure(),
     { unimplemented!() }
+    // Create, failing if the path exists (O_EXCL): ONE CRASH STEP. It is NOT an I/O failure when
+    // it refuses an existing file - and the file does exist whenever open found one (a short or
+    // foreign header is exactly the case in which open falls back to create).
+    #[verifier::external_body]
+    fn create_new(path: &PathBuf) -> (r: Result<File, IoError>)
+        requires point_state(Seq::<u8>::empty()),
+        ensures
+            r matches Ok(f) ==> f.content() == Seq::<u8>::empty() && disk(path.p) is None,
+            r matches Err(e) ==> io_failure() || (e.kind_spec() == ErrorKind::AlreadyExists && disk(path.p) is Some),
+            disk(path.p) is Some ==> r is Err,
+    { unimplemented!() }
 }
+// utils::fatal wrappers of the same constructors (errors are logged and become Failed).
+#[verifier::external_body]
+fn fatal_create_file(path: &Path) -> (r: Result<File, Failed>)
+    requires point_state(Seq::<u8>::empty()),
+    ensures
+        r matches Ok(f) ==> f.content() == Seq::<u8>::empty(),
+        r is Err ==> io_failure(),
+{ unimplemented!() }
+#[verifier::external_body]
+fn fatal_open_existing_file(path: &Path) -> (r: Result<Option<File>, Failed>)
+    ensures
+        r matches Ok(Some(f)) ==> disk(*path) == Some(f.content()) && point_state(f.content()),
+        r matches Ok(None) ==> disk(*path) is None,
+        r is Err ==> io_failure(),
+{ unimplemented!() }
+// fatal::open_file: a missing file is an error here, and not an I/O failure
+#[verifier::external_body]
+fn fatal_open_file(path: &Path) -> (r: Result<File, Failed>)
+    ensures
+        r matches Ok(f) ==> disk(*path) == Some(f.content()) && point_state(f.content()),
+        r is Err ==> io_failure() || disk(*path) is None,
+{ unimplemented!() }
+
 impl StoredPointHeader {
     // Writing a header = a sequence of write_all calls: ONE CRASH STEP GROUP. A kill during it
     // leaves the old bytes plus any prefix of the header: every such state must be acceptable.
